@@ -55,9 +55,12 @@ func verifLastIndexEv(evs []string, name string) int {
 }
 
 // Runs Handle on a scripted client and checks the probe-resistance obligations.
-func verifC06Run(conn *verifStreamConn, cl CipherList, cache *ReplayCache, wantStatus string, timeout bool, total int) {
+func verifC06Run(conn *verifStreamConn, cl CipherList, cache *ReplayCache, wantStatus string, timeout bool, total int) (*verifTCPMetrics, *verifDialer) {
 	if timeout {
 		conn.endErr = verifTimeoutErr{}
+	}
+	if verifC06Reset {
+		conn.endErr = errVerifFault // the client resets the connection instead of closing it
 	}
 	dialer := &verifDialer{conn: &verifStreamConn{name: "target", remote: &net.TCPAddr{IP: net.IPv4(93, 184, 216, 34), Port: 80}}}
 	h := NewStreamHandler(NewShadowsocksStreamAuthenticator(cl, cache, nil, nil), tcpReadTimeout)
@@ -92,12 +95,16 @@ func verifC06Run(conn *verifStreamConn, cl CipherList, cache *ReplayCache, wantS
 	if timeout {
 		drain = "timeout"
 	}
+	if verifC06Reset {
+		drain = "other"
+	}
 	verifAssert("C15.probe-once", len(m.probes) == 1 && m.probes[0] == wantStatus+"/"+drain)
 	verifAssert("C15.probe-bytes", len(m.probeBytes) == 1 && m.probeBytes[0] == int64(total))
 	verifAssert("C15.closed-once", len(m.closed) == 1 && m.closed[0] == wantStatus)
 	verifAssert("C15.no-auth-report", len(m.authenticated) == 0)
 	verifAssert("C15.order", len(m.order) == 2 && m.order[0] == "probe" && m.order[1] == "closed")
 	verifAssert("C15.bytes", m.closedData[0] == int64(total) && m.closedData[1] == 0 && m.closedData[2] == 0 && m.closedData[3] == 0)
+	return m, dialer
 }
 
 var verifProbeLens = []int{0, 1, 49, 50, 51, 73}
@@ -108,6 +115,24 @@ var verifProbeLens = []int{0, 1, 49, 50, 51, 73}
 var verifDeadlineValue = false
 
 var verifC06Ctx context.Context
+var verifC06Reset bool
+
+// C15: a probe that ends with a connection reset (neither FIN nor timeout) is still reported
+// once, with its byte count, and closed once
+func VH_C15_probe_reset() {
+	verifC06Reset = true
+	defer func() { verifC06Reset = false }()
+	cl, _, _ := verifMakeList(1, 1, false)
+	l1 := []int{50, 73}[verifChoice("len1", 2)]
+	l2 := []int{0, 7}[verifChoice("len2", 2)]
+	conn := &verifStreamConn{name: "client", remote: &net.TCPAddr{IP: net.IPv4(203, 0, 113, 5), Port: 50000}}
+	conn.reads = append(conn.reads, verifSRead{data: verifBytes("p1", l1)})
+	if l2 > 0 {
+		conn.reads = append(conn.reads, verifSRead{data: verifBytes("p2", l2)})
+	}
+	verifC06Run(conn, cl, nil, "ERR_CIPHER", false, l1+l2)
+	verifReach("C15.probe-reset.done", true)
+}
 
 // arbitrary bytes of the classic probe lengths, delivered in one or two reads
 func VH_C06_random() {
@@ -174,7 +199,9 @@ func VH_C06_replay() {
 	if extra > 0 {
 		conn2.reads = append(conn2.reads, verifSRead{data: verifBytes("more", extra)})
 	}
-	verifC06ReplayRun(conn2, cl, &c, "ERR_REPLAY_CLIENT", verifFlag("timeout"), len(stream)+extra, "id-0")
+	m2, d2 := verifC06Run(conn2, cl, &c, "ERR_REPLAY_CLIENT", verifFlag("timeout"), len(stream)+extra)
+	verifAssert("C07.replay.refused", len(m2.closed) == 1 && m2.closed[0] == "ERR_REPLAY_CLIENT" && len(m2.authenticated) == 0)
+	verifAssert("C07.replay.handled-like-a-probe", len(d2.dials) == 0 && conn2.writeCalls == 0 && len(m2.probes) == 1 && len(conn2.deadlines) == 1)
 	verifReach("C06.replay.done", true)
 }
 
@@ -285,6 +312,7 @@ func VH_C06_badchunk() {
 	end := verifIndexStr(glog, "client:ReadEnd")
 	verifAssert("C06.badchunk.target-fin-sent", fin >= 0)
 	verifAssert("C06.badchunk.drained-before-fin", end >= 0 && end < fin && conn.bytesRead == len(stream)+len(more))
+	verifAssert("C06.badchunk.read-side-open-while-draining", conn.readsAfterCloseRead == 0 && verifIndexEv(conn.events, "CloseRead") > verifLastIndexEv(conn.events, "Read"))
 	verifReach("C06.badchunk.done", true)
 }
 
